@@ -1,6 +1,8 @@
 /-
   C20 — Type-identifier conversions are lossless and consistent for all 2^32 values.
 -/
+import Mb2.Props.FnsTblIds
+import Mb2.Props.FnsTblTags
 import Mb2.Props.FnsTagType
 import Mb2.Props.FnsMemType
 import Mb2.Props.FnsElfType
